@@ -101,6 +101,12 @@ def main(argv):
     import logging
 
     logging.disable(logging.CRITICAL)
+    # ppci.arch.get_current_arch() calls platform.architecture(), which forks `file` on every
+    # instantiation; the answer is constant for this process
+    import functools
+    import platform
+
+    platform.architecture = functools.lru_cache(maxsize=None)(platform.architecture)
     from ppci import ir, wasm
     from vlib import wasmgen
 
